@@ -33,7 +33,7 @@ theorem step_nonUse {p : Pool K} (h : Inv p) (e : Ev K) (hne : e.isUseKs = false
     · simp [hid]
   cases e with
   | useKs k => simp [Ev.isUseKs] at hne
-  | taskUse tid i r =>
+  | taskSubmit tid i =>
     simp only [step]
     split
     · exact hsame _ rfl rfl rfl
@@ -44,10 +44,33 @@ theorem step_nonUse {p : Pool K} (h : Inv p) (e : Ev K) (hne : e.isUseKs = false
       · exact hsame _ rfl rfl rfl
       · rename_i hcond
         simp only [Bool.or_eq_true, Bool.not_eq_true', not_or, Bool.not_eq_true, Option.isSome_eq_false_iff,
-          Option.isNone_iff_eq_none, Bool.not_eq_false, List.contains_eq_mem, decide_eq_true_eq] at hcond
+          Option.isNone_iff_eq_none] at hcond
         split
         · exact hmod _ t0 _ htm hcond.1.1 rfl rfl rfl (fun x => rfl)
         · exact hmod _ t0 _ htm hcond.1.1 rfl rfl rfl (fun x => rfl)
+  | serve i r =>
+    simp only [step]
+    split
+    · exact hsame _ rfl rfl rfl
+    · rename_i w k rest hqu
+      cases w with
+      | user => exact hsame _ rfl rfl rfl
+      | task tid =>
+        simp only
+        split
+        · exact hsame _ rfl rfl rfl
+        · rename_i t0 hft
+          obtain ⟨htm, htid⟩ := findTask_some hft
+          subst htid
+          split
+          · exact hsame _ rfl rfl rfl
+          · rename_i hcond
+            simp only [Bool.or_eq_true, not_or, Bool.not_eq_true, Option.isSome_eq_false_iff,
+              Option.isNone_iff_eq_none] at hcond
+            exact hmod _ t0 _ htm hcond.1 rfl rfl rfl (fun x => rfl)
+  | userUse i x =>
+    simp only [step]
+    split <;> exact hsame _ rfl rfl rfl
   | taskFinish tid =>
     simp only [step]
     split
